@@ -331,6 +331,16 @@ class SignService:
             self.unknown_ats.append(hashedid3)
         self.cam_handler.requested_own_certificate = True
 
+    def notify_known_at(self, hashedid8: bytes) -> None:
+        """
+        §7.1.1: The certificate of a previously unknown AT has been received and
+        verified. Stop requesting it: remove its HashedId3 from the list sent as
+        inlineP2pcdRequest in the next CAMs.
+        """
+        hashedid3 = hashedid8[-3:]
+        if hashedid3 in self.unknown_ats:
+            self.unknown_ats.remove(hashedid3)
+
     def notify_inline_p2pcd_request(self, request_list: list) -> None:
         """
         §7.1.1: Process a received inlineP2pcdRequest field.
